@@ -702,7 +702,8 @@ _judge_match = _mk_judge_match()
 
 # ---------------------------------------------------------------- the pristine-process probe (harness/c07_fresh.py)
 _FRESH = [None]
-_RING = collections.deque(maxlen=20)
+_RAW = {}
+_RINGS = {"match": collections.deque(maxlen=20), "match_matrix": collections.deque(maxlen=20)}
 _PROBE = {"n": 0, "explained": 0}
 
 
@@ -724,48 +725,87 @@ atexit.register(_close_fresh)
 
 
 def _plain(o):
-    return {k: v for k, v in o.items() if k != "trace"} if isinstance(o, dict) else o
+    if not isinstance(o, dict):
+        return o
+    out = {k: v for k, v in o.items() if k != "trace"}
+    if isinstance(out.get("lib"), dict) and "matrix" in out["lib"]:
+        out["lib"] = {k: out["lib"].get(k) for k in ("n", "m", "matrix", "assigned")}
+    return out
 
 
-def _refine(ctx, x, io_bad, msg):
+def _neighbours(base, x):
+    """calls likely to share state with `x`: the same geometries with other buffers / the same shape with other entries"""
+    if base == "match":
+        out = []
+        for fb in ("100", "500", "1/2", "1", "1000", "10"):
+            if fb != x["fb"]:
+                out.append({**x, "fb": fb})
+        for tb in ("1/100", "1/4", "1/2", "1"):
+            if tb != x["tb"]:
+                out.append({**x, "tb": tb})
+        out += [{**x, "tb": "1/2", "fb": "1"}, {**x, "tb": "1/4", "fb": "1/2"}]
+        return [{k: v for k, v in c.items() if k != "style"} for c in out]
+    n, m = x["n"], x["m"]
+    flat = [v for row in x["matrix"] for v in row]
+    outs = [["0"] * (n * m), ["1"] * (n * m), list(reversed(flat)), [("1/2" if v == "0" else "0") for v in flat]]
+    return [dict(x, matrix=[vals[i * m:(i + 1) * m] for i in range(n)]) for vals in outs if vals != flat]
+
+
+def _hist_input(base, prefix, x):
+    seq = [{"inp": r} for r in prefix] + [{"inp": x}]
+    return ("match_history", {"seq": seq}) if base == "match" else ("stub_history", {"base": base, "seq": seq})
+
+
+def _refine(ctx, base, x, io_bad, msg):
     """A failing call: does it fail on its own?  If a fresh process answers the same call differently the failure
-    depends on what was called before; then look for a short history (a neighbour of the call with other buffers, or
-    one of the recent calls, in front of it) that reproduces it in a fresh process and record *that* as the
-    violation - its replay stands on its own.  Returns the message to report for the single call (None when a
-    history was recorded instead)."""
+    depends on what was called before; then look for a short history (a neighbour of the call - the same geometries
+    with other buffers, the same shape with other entries - or one of the recent calls in front of it, finally the
+    whole recent past) that reproduces it in a fresh process and record *that* as the violation: its replay stands
+    on its own.  Returns the message to report for the single call (None when a history was recorded instead)."""
     F = _fresh()
-    alone = F.run({"seq": [{"inp": x}]})
+    alone = F.run({"seq": [{"inp": x}]}, base=base)
     if alone is None:
         return msg
-    here = dict(_plain(io_bad), lib=_matrix_of(x))
+    here = _plain(dict(io_bad, lib=_matrix_of(x))) if base == "match" else _plain(io_bad)
     if _plain(alone[0]) == here:
         return msg
     ctx.tally("pristine-process probe: failing call answers differently in a fresh process (state-dependent)")
     if _PROBE["explained"] >= 4:
         _PROBE["explained"] += 1
         return None
-    cands = [{**x, "tb": tb, "fb": fb, "style": None} for tb, fb in _BUFFER_CHOICES[:5] if (tb, fb) != (x["tb"], x["fb"])]
-    cands = [{k: v for k, v in c.items() if v is not None} for c in cands] + list(reversed(_RING))
-    for r in cands[:18]:
-        hist = {"seq": [{"inp": r}, {"inp": x}]}
-        outs = F.run(hist)
+
+    def attempt(prefix):
+        outs = F.run({"seq": [{"inp": r} for r in prefix] + [{"inp": x}]}, base=base)
         if outs is None:
-            break
-        if _plain(outs[1]) == _plain(alone[0]):
-            continue
-        m2 = _judge_observed(ctx, x, outs[1])
-        if m2:
-            _PROBE["explained"] += 1
-            ctx.fail("property", "match_history", inp=hist,
-                     impl={"steps": [{kk: v for kk, v in o.items() if kk != "lib"} for o in outs], "notes": []},
-                     detail="history step 1 (fresh -> fresh): " + m2 + f" [alone, in a fresh process, the same call returns "
-                            f"{jkey(_plain(alone[0]))[:200]}]")
+            return "stop"
+        if _plain(outs[-1]) == _plain(alone[0]):
             return None
-    return msg + " (state-dependent: a fresh process answers this call differently; no two-call history reproduces it)"
+        m2 = _judge_observed(ctx, base, x, outs[-1])
+        if not m2:
+            return None
+        _PROBE["explained"] += 1
+        name, hist = _hist_input(base, prefix, x)
+        ctx.fail("property", name, inp=hist,
+                 impl={"steps": [{kk: v for kk, v in o.items() if kk != "lib"} for o in outs], "notes": []},
+                 detail=f"history step {len(prefix)} ({' -> '.join(['fresh'] * (len(prefix) + 1))}): " + m2 +
+                        f" [alone, in a fresh process, the same call returns {jkey(_plain(alone[0]))[:200]}]")
+        return "done"
+    ring = list(_RINGS[base])
+    for r in (_neighbours(base, x) + list(reversed(ring)))[:34]:
+        res = attempt([r])
+        if res == "done":
+            return None
+        if res == "stop":
+            return msg
+    if len(ring) > 1 and attempt(ring) == "done":
+        return None
+    return msg + " (state-dependent: a fresh process answers this call differently; no short history reproduces it)"
 
 
-def _judge_observed(ctx, x, obs):
+def _judge_observed(ctx, base, x, obs):
     """judge a call as observed in a fresh process (its output and the library's matrix there)"""
+    if base != "match":
+        return history._judge(ctx, _RAW[base], x, obs)[0]
     k = _core_key(x)
     out = {kk: v for kk, v in obs.items() if kk != "lib"}
     if isinstance(obs.get("lib"), dict) and "matrix" in obs["lib"]:
@@ -788,13 +828,35 @@ def _holds_match(ctx, inp, io):
             alone = _fresh().run({"seq": [{"inp": inp}]})
             if alone is not None:
                 ctx.tally("pristine-process probe: same answer in a fresh process")
-                if _plain(alone[0]) != dict(_plain(io), lib=_matrix_of(inp)):
+                if _plain(alone[0]) != _plain(dict(io, lib=_matrix_of(inp))):
                     ctx.tally("pristine-process probe: same answer in a fresh process", -1)
                     msg = ("the answer to this call (or the library's affinity matrix for it) depends on the calls made "
                            f"earlier in this process: a fresh process gives {jkey(_plain(alone[0]))[:300]}")
     if msg is not None:
-        msg = _refine(ctx, inp, io, msg)
-    _RING.append(inp)
+        msg = _refine(ctx, "match", inp, io, msg)
+    _RINGS["match"].append(inp)
+    return msg
+
+
+def _holds_matrix_probed(ctx, inp, io):
+    """`match_matrix` with the probe: the stubbed operation, too, must not depend on earlier calls"""
+    msg = _RAW["match_matrix"].holds(ctx, inp, io)
+    if _CTX is None:
+        return msg
+    if msg is None and inp["n"] * inp["m"] <= 64:
+        _PROBE["n"] += 1
+        if _PROBE["n"] % 53 == 0:
+            alone = _fresh().run({"seq": [{"inp": inp}]}, base="match_matrix")
+            if alone is not None:
+                ctx.tally("pristine-process probe: same answer in a fresh process")
+                if _plain(alone[0]) != _plain(io):
+                    ctx.tally("pristine-process probe: same answer in a fresh process", -1)
+                    msg = ("the answer to this call depends on the calls made earlier in this process: a fresh process "
+                           f"gives {jkey(_plain(alone[0]))[:300]}")
+    if msg is not None:
+        msg = _refine(ctx, "match_matrix", inp, io, msg)
+    if inp["n"] * inp["m"] <= 64:
+        _RINGS["match_matrix"].append(inp)
     return msg
 
 
@@ -821,7 +883,7 @@ def _holds_history(raw, opname):
         k = re.match(r"(?:history step|call) (\d+)", msg)
         if k and int(k.group(1)) < len(io.get("steps", [])):
             k = int(k.group(1))
-            return _refine(ctx, h["seq"][k]["inp"], io["steps"][k], msg)
+            return _refine(ctx, h.get("base", "match"), h["seq"][k]["inp"], io["steps"][k], msg)
         return msg + " (not reproduced when the history runs in a fresh process)"
     return holds
 
@@ -839,7 +901,7 @@ OPS = {
                 compare=_mk_compare(_matrix_of), holds=_holds_match, determined=False,
                 nontrivial=_nontrivial, mode="exact"),
     "match_matrix": Op("match_matrix", _impl_matrix, to_model=_matrix_args, compare=_mk_compare(_matrix_args),
-                       holds=_mk_holds(_matrix_args, Fraction(0)), determined=False, nontrivial=_nontrivial,
+                       holds=_holds_matrix_probed, determined=False, nontrivial=_nontrivial,
                        mode="exact", model_op="match", shrink=True),
     # the solver's answer as a parameter (any answer scipy's documented contract allows, optimal or not):
     # ties `selectMatches` to the code for the whole quantifier of the theorems, independent of scipy's choices
@@ -1006,9 +1068,45 @@ def _holds_interleaved(ctx, h, io):
     return None
 
 
-# the base operation of the histories: judged step by step without the probe (the probe works on whole histories)
+# the base operations of the histories: judged step by step without the probe (the probe works on whole histories)
 _MATCH_RAW = Op("match", _impl_match, to_model=_geoms_args, model_op="match_geoms", compare=_mk_compare(_matrix_of),
                 holds=_judge_match, determined=False, nontrivial=_nontrivial, mode="exact")
+_RAW.update({"match": _MATCH_RAW,
+             "match_matrix": Op("match_matrix", _impl_matrix, to_model=_matrix_args, compare=_mk_compare(_matrix_args),
+                                holds=_mk_holds(_matrix_args, Fraction(0)), determined=False, nontrivial=_nontrivial,
+                                mode="exact", model_op="match"),
+             "match_solver": OPS["match_solver"]})
+
+
+def _observe_op(base, inp):
+    """one call of a base operation as the pristine-process probe observes it"""
+    if base == "match":
+        return _observe(inp)
+    from ..core import canon_exc
+    try:
+        return OPS[base].impl(inp)
+    except Exception as e:  # noqa: BLE001 - an exception of the real code is an observation
+        return canon_exc(e)
+
+
+def _impl_stub_history(h):
+    """consecutive calls of a stubbed operation (arbitrary matrices / solver answers) in one process"""
+    return {"steps": [_observe_op(h["base"], st["inp"]) for st in h["seq"]], "notes": []}
+
+
+def _holds_stub_history(ctx, h, io):
+    if "raise" in io:
+        return f"the history driver raised {io['raise']}"
+    for k, (st, out) in enumerate(zip(h["seq"], io["steps"])):
+        msg, _ = history._judge(ctx, _RAW[h["base"]], st["inp"], out)
+        if msg:
+            return f"history step {k} ({' -> '.join(['fresh'] * (k + 1))}): {msg}"
+    return None
+
+
+OPS["stub_history"] = Op("stub_history", _impl_stub_history, holds=_holds_history(_holds_stub_history, "stub_history"),
+                         compare=lambda inp, io, mo: None, determined=True, mode="exact", no_model=True,
+                         nontrivial=lambda inp, out: isinstance(out, dict) and "steps" in out)
 OPS["match_history"] = history.history_op("match_history", _MATCH_RAW, _h_build, _h_call, _h_canon,
                                           snapshot=_h_snapshot, modify=_h_modify, poison=_h_poison)
 OPS["match_history"].holds = _holds_history(OPS["match_history"].holds, "match_history")
@@ -1654,6 +1752,29 @@ def _stage_histories(ctx):
     ctx.run_cases(OPS["match_interleaved"], inter)
 
 
+def _stage_stub_histories(ctx):
+    """consecutive calls of the stubbed operations in one process: a matrix, another matrix of the same shape (other
+    entries, all zeros, all ones, reversed), the first again; the same matrix with another solver answer"""
+    rng = ctx.rng
+    hs = []
+    for x in _random_matrices(rng, ctx.budget(120, 1200), 4):
+        if x["n"] * x["m"] == 0:
+            continue
+        seq = [x]
+        for _ in range(rng.randint(1, 2)):
+            seq.append(rng.choice(_neighbours("match_matrix", x) + [next(_random_matrices(rng, 1, 4))]))
+            if rng.random() < 0.7:
+                seq.append(x)
+        hs.append({"base": "match_matrix", "seq": [{"inp": y} for y in seq]})
+    for x in _solver_cases_random(rng, ctx.budget(40, 400), 3):
+        n, m = x["n"], x["m"]
+        if n * m == 0:
+            continue
+        others = [dict(x, assigned=a) for a in itertools.islice(_contract_assignments(n, m), 6)]
+        hs.append({"base": "match_solver", "seq": [{"inp": y} for y in [x, rng.choice(others), x]]})
+    ctx.run_cases(OPS["stub_history"], hs)
+
+
 def _stage_boundaries(ctx):
     ctx.run_cases(OPS["match"], _boundary_geometry_cases())
     ctx.run_cases(OPS["match"], _long_time_lists(ctx.rng, ctx.budget(2, 8)))
@@ -1698,6 +1819,7 @@ def run(ctx):
                   _stage_solver, ctx)
         stage("symbolic affinities at fixed shapes", _stage_symbolic, ctx)
         stage("matrix boundaries and size thresholds", _stage_boundary_matrices, ctx)
+        stage("histories of the stubbed operations", _stage_stub_histories, ctx)
     stage("signatures of match_geometries / compute_affinity (Tie 1)", _stage_signature, ctx)
     stage("construction and call styles", _stage_styles, ctx)
     stage("type pairs x buffer settings", _stage_type_pairs, ctx)
